@@ -345,6 +345,90 @@ def ENUMS_EQUAL_TYPE (w : Nat) (e a : Int) : Outcome :=
 
 def FAIL : Outcome := fail
 
+/-- `CHECK_EQUAL_ZERO(actual)`: `CHECK_EQUAL(0, (actual))`, the expected operand is the `int` literal 0 -/
+def CHECK_EQUAL_ZERO (a : CInt) : Outcome := CHECK_EQUAL_int { ty := tyInt, val := 0 } a
+
+/-- how the expression of `CHECK_THROWS(expected, expression)` ended -/
+inductive Thrown where
+  | nothing      -- returned normally
+  | expected     -- threw an exception caught by `catch (const expected &)`
+  | other        -- threw something else (`catch (...)`)
+deriving Repr, DecidableEq, Inhabited
+
+/-- `UtestShell::countCheck()`: counts, never fails -/
+def countOnly : Outcome := { fails := false, counted := 1 }
+
+/-- `CHECK_THROWS(expected, expression)`:
+```
+try { (expression); } catch (const expected &) { caught_expected = true; } catch (...) { failure_msg = …; }
+if (!caught_expected) UtestShell::getCurrent()->fail(failure_msg…); else UtestShell::getCurrent()->countCheck();
+``` -/
+def CHECK_THROWS : Thrown → Outcome
+  | .expected => countOnly
+  | .nothing => fail
+  | .other => fail
+
+/-! ## a test body: several check statements in sequence
+
+`failWith` ends with `terminator.exitCurrentTest()`: the C++ checks use the current terminator
+(`NormalTestTerminator`: `throw CppUTestFailedException()` in the exception build), the C entry
+points pass `getCurrentTestTerminatorWithoutExceptions()` (`PlatformSpecificLongJmp()`); both
+leave the test body, so the statements after a failing check are not executed. -/
+
+inductive Stmt where
+  | check (o : Outcome)      -- one check macro whose own outcome (on its operands) is `o`
+  | exit                     -- `TEST_EXIT`
+deriving Repr, DecidableEq, Inhabited
+
+structure BodyResult where
+  failures : Nat
+  checks   : Nat
+  executed : Nat             -- statements that were started
+deriving Repr, DecidableEq, Inhabited
+
+/-- a passing statement in front of the rest of the body -/
+def BodyResult.after (o : Outcome) (r : BodyResult) : BodyResult :=
+  { failures := r.failures, checks := o.counted + r.checks, executed := r.executed + 1 }
+
+def runBody : List Stmt → BodyResult
+  | [] => { failures := 0, checks := 0, executed := 0 }
+  | .exit :: _ => { failures := 0, checks := 0, executed := 1 }
+  | .check o :: rest =>
+    if o.fails then { failures := 1, checks := o.counted, executed := 1 }
+    else (runBody rest).after o
+
+/-! ## operands with side effects: how often a macro evaluates them
+
+`e k` / `a k` is the value the expected / actual operand expression yields at its `k`-th
+evaluation (both of type `t`).  `CHECK_EQUAL_LOCATION` evaluates `(expected) != (actual)` once;
+when they differ it evaluates `(actual) != (actual)` and `(expected) != (expected)` (printing
+a warning for each that is true) and then `StringFrom(expected)`, `StringFrom(actual)`:
+4 evaluations of each operand.  `CHECK_COMPARE_LOCATION` evaluates the comparison once and, when
+it fails, `StringFrom(first)` / `StringFrom(second)`: 2 evaluations.  The function-style macros
+(`LONGS_EQUAL` …) evaluate every operand exactly once. -/
+
+structure Evals where
+  expected : Nat
+  actual   : Nat
+  warnings : Nat
+deriving Repr, DecidableEq, Inhabited
+
+def warnIf (b : Bool) : Nat := if b then 1 else 0
+
+def checkEqualRun (t : CTy) (e a : Nat → Int) : Outcome × Evals :=
+  if cppNe ⟨t, e 0⟩ ⟨t, a 0⟩ then
+    (assertEquals true,
+      { expected := 4, actual := 4,
+        warnings := warnIf (cppNe ⟨t, a 1⟩ ⟨t, a 2⟩) + warnIf (cppNe ⟨t, e 1⟩ ⟨t, e 2⟩) })
+  else (assertLongsEqual 0 0, { expected := 1, actual := 1, warnings := 0 })
+
+def checkCompareRun (op : RelOp) (t : CTy) (e a : Nat → Int) : Outcome × Evals :=
+  if cppRel op ⟨t, e 0⟩ ⟨t, a 0⟩ then (nothing, { expected := 1, actual := 1, warnings := 0 })
+  else (assertCompare false, { expected := 2, actual := 2, warnings := 0 })
+
+def longsEqualRun (e a : Nat → Int) : Outcome × Evals :=
+  (LONGS_EQUAL (e 0) (a 0), { expected := 1, actual := 1, warnings := 0 })
+
 /-! ## the C entry points of TestHarness_c.cpp (arguments converted to the declared parameters) -/
 
 /-- `assertEquals(!!expected != !!actual, …)` with `int` parameters -/
@@ -487,6 +571,12 @@ def expectedCheckCompare : String :=
 def expectedEnumsEqual : String :=
   "do{underlying_typeexpected_underlying_value=(underlying_type)(expected);underlying_typeactual_underlying_value=(underlying_type)(actual);if(expected_underlying_value!=actual_underlying_value){UtestShell::getCurrent()->assertEquals(true,StringFrom(expected_underlying_value).asCharString(),StringFrom(actual_underlying_value).asCharString(),text,file,line);}else{UtestShell::getCurrent()->assertLongsEqual((long)0,long(0),NULLPTR,file,line);}}while(0)"
 
+def expectedCheckThrows : String :=
+  "do{SimpleStringfailure_msg(S);boolcaught_expected=false;try{(expression);}catch(constexpected&){caught_expected=true;}catch(...){failure_msg=S;}if(!caught_expected){UtestShell::getCurrent()->fail(failure_msg.asCharString(),__FILE__,__LINE__);}else{UtestShell::getCurrent()->countCheck();}}while(0)"
+
+def expectedTestExit : String :=
+  "do{UtestShell::getCurrent()->exitTest();}while(0)"
+
 def expectedFront : List (String × String × List String) := [
   ("CHECK", "CHECK_TRUE_LOCATION", ["condition"]),
   ("CHECK_TEXT", "CHECK_TRUE_LOCATION", ["(bool)(condition)"]),
@@ -497,6 +587,7 @@ def expectedFront : List (String × String × List String) := [
   ("CHECK_EQUAL", "CHECK_EQUAL_LOCATION", ["expected", "actual"]),
   ("CHECK_EQUAL_TEXT", "CHECK_EQUAL_LOCATION", ["expected", "actual"]),
   ("CHECK_EQUAL_ZERO", "CHECK_EQUAL", ["0", "(actual)"]),
+  ("CHECK_EQUAL_ZERO_TEXT", "CHECK_EQUAL_TEXT", ["0", "(actual)"]),
   ("CHECK_COMPARE", "CHECK_COMPARE_TEXT", ["first", "relop", "second"]),
   ("CHECK_COMPARE_TEXT", "CHECK_COMPARE_LOCATION", ["first", "relop", "second"]),
   ("STRCMP_EQUAL", "STRCMP_EQUAL_LOCATION", ["expected", "actual"]),
@@ -562,23 +653,53 @@ def expectedCEntries : List (String × List String × String × List String) := 
 
 def expectedCFront : List (String × String × List String) := [
   ("CHECK_EQUAL_C_BOOL", "CHECK_EQUAL_C_BOOL_LOCATION", ["expected", "actual"]),
+  ("CHECK_EQUAL_C_BOOL_TEXT", "CHECK_EQUAL_C_BOOL_LOCATION", ["expected", "actual"]),
   ("CHECK_EQUAL_C_INT", "CHECK_EQUAL_C_INT_LOCATION", ["expected", "actual"]),
+  ("CHECK_EQUAL_C_INT_TEXT", "CHECK_EQUAL_C_INT_LOCATION", ["expected", "actual"]),
   ("CHECK_EQUAL_C_UINT", "CHECK_EQUAL_C_UINT_LOCATION", ["expected", "actual"]),
+  ("CHECK_EQUAL_C_UINT_TEXT", "CHECK_EQUAL_C_UINT_LOCATION", ["expected", "actual"]),
   ("CHECK_EQUAL_C_LONG", "CHECK_EQUAL_C_LONG_LOCATION", ["expected", "actual"]),
+  ("CHECK_EQUAL_C_LONG_TEXT", "CHECK_EQUAL_C_LONG_LOCATION", ["expected", "actual"]),
   ("CHECK_EQUAL_C_ULONG", "CHECK_EQUAL_C_ULONG_LOCATION", ["expected", "actual"]),
+  ("CHECK_EQUAL_C_ULONG_TEXT", "CHECK_EQUAL_C_ULONG_LOCATION", ["expected", "actual"]),
   ("CHECK_EQUAL_C_LONGLONG", "CHECK_EQUAL_C_LONGLONG_LOCATION", ["expected", "actual"]),
+  ("CHECK_EQUAL_C_LONGLONG_TEXT", "CHECK_EQUAL_C_LONGLONG_LOCATION", ["expected", "actual"]),
   ("CHECK_EQUAL_C_ULONGLONG", "CHECK_EQUAL_C_ULONGLONG_LOCATION", ["expected", "actual"]),
+  ("CHECK_EQUAL_C_ULONGLONG_TEXT", "CHECK_EQUAL_C_ULONGLONG_LOCATION", ["expected", "actual"]),
   ("CHECK_EQUAL_C_REAL", "CHECK_EQUAL_C_REAL_LOCATION", ["expected", "actual", "threshold"]),
+  ("CHECK_EQUAL_C_REAL_TEXT", "CHECK_EQUAL_C_REAL_LOCATION", ["expected", "actual", "threshold"]),
   ("CHECK_EQUAL_C_CHAR", "CHECK_EQUAL_C_CHAR_LOCATION", ["expected", "actual"]),
+  ("CHECK_EQUAL_C_CHAR_TEXT", "CHECK_EQUAL_C_CHAR_LOCATION", ["expected", "actual"]),
   ("CHECK_EQUAL_C_UBYTE", "CHECK_EQUAL_C_UBYTE_LOCATION", ["expected", "actual"]),
+  ("CHECK_EQUAL_C_UBYTE_TEXT", "CHECK_EQUAL_C_UBYTE_LOCATION", ["expected", "actual"]),
   ("CHECK_EQUAL_C_SBYTE", "CHECK_EQUAL_C_SBYTE_LOCATION", ["expected", "actual"]),
+  ("CHECK_EQUAL_C_SBYTE_TEXT", "CHECK_EQUAL_C_SBYTE_LOCATION", ["expected", "actual"]),
   ("CHECK_EQUAL_C_STRING", "CHECK_EQUAL_C_STRING_LOCATION", ["expected", "actual"]),
+  ("CHECK_EQUAL_C_STRING_TEXT", "CHECK_EQUAL_C_STRING_LOCATION", ["expected", "actual"]),
   ("CHECK_EQUAL_C_POINTER", "CHECK_EQUAL_C_POINTER_LOCATION", ["expected", "actual"]),
+  ("CHECK_EQUAL_C_POINTER_TEXT", "CHECK_EQUAL_C_POINTER_LOCATION", ["expected", "actual"]),
   ("CHECK_EQUAL_C_MEMCMP", "CHECK_EQUAL_C_MEMCMP_LOCATION", ["expected", "actual", "size"]),
+  ("CHECK_EQUAL_C_MEMCMP_TEXT", "CHECK_EQUAL_C_MEMCMP_LOCATION", ["expected", "actual", "size"]),
   ("CHECK_EQUAL_C_BITS", "CHECK_EQUAL_C_BITS_LOCATION", ["expected", "actual", "mask", "sizeof(actual)"]),
+  ("CHECK_EQUAL_C_BITS_TEXT", "CHECK_EQUAL_C_BITS_LOCATION", ["expected", "actual", "mask", "sizeof(actual)"]),
   ("FAIL_TEXT_C", "FAIL_TEXT_C_LOCATION", []),
   ("FAIL_C", "FAIL_C_LOCATION", []),
-  ("CHECK_C", "CHECK_C_LOCATION", ["condition"])
+  ("CHECK_C", "CHECK_C_LOCATION", ["condition"]),
+  ("CHECK_C_TEXT", "CHECK_C_LOCATION", ["condition"])
+]
+
+/-- every check macro defined by UtestMacros.h / TestHarness_c.h, in order -/
+def expectedAllMacros : List String := ["CHECK", "CHECK_TEXT", "CHECK_TRUE", "CHECK_TRUE_TEXT", "CHECK_FALSE", "CHECK_FALSE_TEXT", "CHECK_TRUE_LOCATION", "CHECK_FALSE_LOCATION", "CHECK_EQUAL", "CHECK_EQUAL_TEXT", "CHECK_EQUAL_LOCATION", "CHECK_EQUAL_ZERO", "CHECK_EQUAL_ZERO_TEXT", "CHECK_COMPARE", "CHECK_COMPARE_TEXT", "CHECK_COMPARE_LOCATION", "STRCMP_EQUAL", "STRCMP_EQUAL_TEXT", "STRCMP_EQUAL_LOCATION", "STRNCMP_EQUAL", "STRNCMP_EQUAL_TEXT", "STRNCMP_EQUAL_LOCATION", "STRCMP_NOCASE_EQUAL", "STRCMP_NOCASE_EQUAL_TEXT", "STRCMP_NOCASE_EQUAL_LOCATION", "STRCMP_CONTAINS", "STRCMP_CONTAINS_TEXT", "STRCMP_CONTAINS_LOCATION", "STRCMP_NOCASE_CONTAINS", "STRCMP_NOCASE_CONTAINS_TEXT", "STRCMP_NOCASE_CONTAINS_LOCATION", "LONGS_EQUAL", "LONGS_EQUAL_TEXT", "UNSIGNED_LONGS_EQUAL", "UNSIGNED_LONGS_EQUAL_TEXT", "LONGS_EQUAL_LOCATION", "UNSIGNED_LONGS_EQUAL_LOCATION", "LONGLONGS_EQUAL", "LONGLONGS_EQUAL_TEXT", "UNSIGNED_LONGLONGS_EQUAL", "UNSIGNED_LONGLONGS_EQUAL_TEXT", "LONGLONGS_EQUAL_LOCATION", "UNSIGNED_LONGLONGS_EQUAL_LOCATION", "BYTES_EQUAL", "BYTES_EQUAL_TEXT", "SIGNED_BYTES_EQUAL", "SIGNED_BYTES_EQUAL_LOCATION", "SIGNED_BYTES_EQUAL_TEXT", "SIGNED_BYTES_EQUAL_TEXT_LOCATION", "POINTERS_EQUAL", "POINTERS_EQUAL_TEXT", "POINTERS_EQUAL_LOCATION", "FUNCTIONPOINTERS_EQUAL", "FUNCTIONPOINTERS_EQUAL_TEXT", "FUNCTIONPOINTERS_EQUAL_LOCATION", "DOUBLES_EQUAL", "DOUBLES_EQUAL_TEXT", "DOUBLES_EQUAL_LOCATION", "MEMCMP_EQUAL", "MEMCMP_EQUAL_TEXT", "MEMCMP_EQUAL_LOCATION", "BITS_EQUAL", "BITS_EQUAL_TEXT", "BITS_LOCATION", "ENUMS_EQUAL_INT", "ENUMS_EQUAL_INT_TEXT", "ENUMS_EQUAL_TYPE", "ENUMS_EQUAL_TYPE_TEXT", "ENUMS_EQUAL_TYPE_LOCATION", "FAIL", "FAIL_LOCATION", "FAIL_TEST", "FAIL_TEST_LOCATION", "TEST_EXIT", "CHECK_THROWS"]
+
+def expectedAllCMacros : List String := ["CHECK_EQUAL_C_BOOL", "CHECK_EQUAL_C_BOOL_TEXT", "CHECK_EQUAL_C_INT", "CHECK_EQUAL_C_INT_TEXT", "CHECK_EQUAL_C_UINT", "CHECK_EQUAL_C_UINT_TEXT", "CHECK_EQUAL_C_LONG", "CHECK_EQUAL_C_LONG_TEXT", "CHECK_EQUAL_C_ULONG", "CHECK_EQUAL_C_ULONG_TEXT", "CHECK_EQUAL_C_LONGLONG", "CHECK_EQUAL_C_LONGLONG_TEXT", "CHECK_EQUAL_C_ULONGLONG", "CHECK_EQUAL_C_ULONGLONG_TEXT", "CHECK_EQUAL_C_REAL", "CHECK_EQUAL_C_REAL_TEXT", "CHECK_EQUAL_C_CHAR", "CHECK_EQUAL_C_CHAR_TEXT", "CHECK_EQUAL_C_UBYTE", "CHECK_EQUAL_C_UBYTE_TEXT", "CHECK_EQUAL_C_SBYTE", "CHECK_EQUAL_C_SBYTE_TEXT", "CHECK_EQUAL_C_STRING", "CHECK_EQUAL_C_STRING_TEXT", "CHECK_EQUAL_C_POINTER", "CHECK_EQUAL_C_POINTER_TEXT", "CHECK_EQUAL_C_MEMCMP", "CHECK_EQUAL_C_MEMCMP_TEXT", "CHECK_EQUAL_C_BITS", "CHECK_EQUAL_C_BITS_TEXT", "FAIL_TEXT_C", "FAIL_C", "CHECK_C", "CHECK_C_TEXT"]
+
+/-- the platform predicates doubles_equal relies on (src/Platforms/Gcc/UtestPlatform.cpp) -/
+def expectedPlatformPredicates : List (String × String) := [
+  ("IsNanImplementation", "returnisnan(d);"),
+  ("IsInfImplementation", "returnisinf(d);"),
+  ("PlatformSpecificFabs", "fabs"),
+  ("PlatformSpecificIsNan", "IsNanImplementation"),
+  ("PlatformSpecificIsInf", "IsInfImplementation")
 ]
 
 
